@@ -20,7 +20,7 @@ REPUSH = os.environ.get("VERIF_PICKLE_REPUSH", "FALSE")
 
 
 def mc(mode, n, k, l, repush, gen=False, timeout=2400):
-    cfg = ("SPECIFICATION Spec\nCONSTANTS\n  N = %d\n  K = %d\n  L = %d\n  Mode = \"%s\"\n  Repush = %s\nINVARIANT %s\nCHECK_DEADLOCK FALSE\n"
+    cfg = ("SPECIFICATION Spec\nCONSTANTS\n  N = %d\n  K = %d\n  L = %d\n  Mode = \"%s\"\n  Repush = %s\n  HostCycles = \"none\"\nINVARIANT %s\nCHECK_DEADLOCK FALSE\n"
            % (n, k, l, mode, repush, "GenInv" if gen else "Inv"))
     module = "PickleGen" if gen else "PickleMC"
     rc, out, wd = vlib.tlc(SPEC, module, cfg="run.cfg", workers=1 if gen else 16, timeout=timeout, heap="10g", files={"run.cfg": cfg})
@@ -77,7 +77,7 @@ def pipeline(tier):
             kinds[e["ev"]] = kinds.get(e["ev"], 0) + 1
     res["calls"] = kinds
     by_id = {l["id"]: l for l in lines}
-    cfgtxt = "SPECIFICATION Spec\nCONSTANT Repush = FALSE\nINVARIANT Done\nCHECK_DEADLOCK FALSE\n"
+    cfgtxt = "SPECIFICATION Spec\nCONSTANTS\n  Repush = FALSE\n  HostCycles = \"none\"\nINVARIANT Done\nCHECK_DEADLOCK FALSE\n"
     with open(os.path.join(wd, "PickleTraceP.cfg"), "w") as f:
         f.write(cfgtxt)
     viols, n = vlib.eval_traces(SPEC, "PickleTraceP", os.path.join(wd, "PickleTraceP.cfg"),
